@@ -34,7 +34,7 @@ def decode(data: bytes) -> dict:
         elif r < 7:
             case["events"].append({"e": "cmd", "c": c, "k": d.i(0, len(CMDS) - 1)})
         else:
-            case["events"].append({"e": "disc", "c": c, "how": d.pick(["close", "eof", "abort"])})
+            case["events"].append({"e": "disc", "c": c, "how": d.pick(["close", "eof", "abort", "reset"])})
     case["stop_at"] = d.i(0, len(case["events"]))
     case["cli"] = d.p(0.04)
     case["restart"] = d.p(0.3)
@@ -247,7 +247,14 @@ class C19Engine(Engine):
                         if ev["how"] == "eof" and c.w.can_write_eof():
                             c.w.write_eof()
                             await asyncio.sleep(0.01)
-                        if ev["how"] == "abort":
+                        if ev["how"] == "reset":
+                            import socket
+                            import struct
+                            sock = c.w.get_extra_info("socket")
+                            if sock is not None and case["transport"] == "tcp":
+                                sock.setsockopt(socket.SOL_SOCKET, socket.SO_LINGER, struct.pack("ii", 1, 0))   # close() sends RST
+                            c.w.transport.abort()
+                        elif ev["how"] == "abort":
                             c.w.transport.abort()
                         else:
                             c.w.close()
